@@ -31,7 +31,7 @@ def observe(n=1500, seed=1, design=True, jobs=None):
                                             "SlackRowIrrelevant"], "holds": r["rc"] == 0}
         exe = V.build_one("lp2d.cpp", [])
         tr = os.path.join(workdir, "lp2d.ndjson")
-        rr = subprocess.run([exe, "--n", str(n), "--seed", str(seed), "--box", "1", "--out", tr], capture_output=True, text=True, timeout=900)
+        rr = subprocess.run([exe, "--n", str(n), "--wide", str(n), "--seed", str(seed), "--box", "1", "--out", tr], capture_output=True, text=True, timeout=900)
         if rr.returncode != 0:
             out["harness_rc"] = rr.returncode
         chunks, lines = V.split_trace(tr, 1200)
